@@ -316,8 +316,21 @@ def run(ctx):
     from .c15 import check_bounds
     check_bounds(ctx, 'C20-fixed', exact=False)
     ctx.minimum('C20-serial', 1)
-    ctx.minimum('C20-once', 1)
+    ctx.minimum('C20-once', 2)
     ctx.minimum('C20-record', 1)
+
+    # ---- the cache that records outcomes is one object for the whole process
+    seen_maps = {}
+    for k, (u, f) in G.defs.items():
+        for (d, node) in _direct_cache_refs(u, f):
+            seen_maps[d['id']] = d
+    for d in seen_maps.values():
+        ctx.check(not d.get('tls'), 'C20-once', 'name cache %s is shared by all threads' % qn(d), d,
+                  'the name cache has thread storage duration: each thread keeps its own record of loaded names, so the '
+                  'factory runs once per name per thread, not once per process', construct='cache-tls:%s' % qn(d),
+                  detail='static storage duration, not thread_local')
+    if not seen_maps:
+        raise AnalysisBroken('C20-once: no name cache found')
 
     # ---- who may erase from the cache: only the documented test-only function
     for k, (u, f) in G.defs.items():
